@@ -120,6 +120,9 @@ pub struct MsgObs<T> {
     pub body: T,
     /// false if the receiving process was already gone
     pub processed: bool,
+    /// length of the launcher log when the message was handed over (what the launcher logged
+    /// before that position happened before the message; 0 where it does not matter)
+    pub log_pos: usize,
 }
 
 #[derive(Debug, Clone)]
